@@ -468,6 +468,11 @@ func (c *connection) waitRead(n int) (err error) {
 	for c.inputBuffer.Len() < n {
 		switch c.status(closing) {
 		case poller:
+			// the poller reads everything the peer sent before it closes the connection, so the
+			// data may have become complete after the length check above: it goes before EOF.
+			if c.inputBuffer.Len() >= n {
+				return nil
+			}
 			return Exception(ErrEOF, "wait read")
 		case user:
 			return Exception(ErrConnClosed, "wait read")
@@ -493,7 +498,10 @@ func (c *connection) waitReadWithTimeout(n int, timeout time.Duration) (err erro
 		switch c.status(closing) {
 		case poller:
 			// cannot return directly, stop timer first!
-			err = Exception(ErrEOF, "wait read")
+			// (and the data may have become complete after the length check above)
+			if c.inputBuffer.Len() < n {
+				err = Exception(ErrEOF, "wait read")
+			}
 			goto RET
 		case user:
 			// cannot return directly, stop timer first!
